@@ -73,7 +73,15 @@ func ClearTextPassword(validate func(ctx context.Context, database, username, pa
 		}
 
 		if !valid {
-			return ctx, ErrorCode(writer, pgerror.WithCode(errors.New("invalid username/password"), codes.InvalidPassword))
+			// NOTE: the client is informed and the connection has to be closed,
+			// a rejected connection never reaches the ready for query state.
+			failure := pgerror.WithCode(errors.New("invalid username/password"), codes.InvalidPassword)
+			err = errorResponse(writer, pgerror.WithSeverity(failure, pgerror.LevelFatal))
+			if err != nil {
+				return ctx, err
+			}
+
+			return ctx, failure
 		}
 
 		return ctx, writeAuthType(writer, authOK)
